@@ -587,6 +587,23 @@ func TestCheck(t *testing.T) {
 			}
 			c.SetExhaustive("kanji_mode_all_code_points", true)
 
+			// Kanji-mode texts whose length crosses the character-count field widths (8, 10 and 12 bits
+			// for versions 1-9, 10-26, 27-40) up to the 1817 characters of version 40-L
+			for li, n := range []int{255, 256, 257, 1023, 1024, 1025, 1500, 1816, 1817} {
+				ci++
+				if !c.Mine(ci) {
+					continue
+				}
+				rs := make([]rune, n)
+				for i := range rs {
+					rs[i] = ks[(i*131+li*17)%len(ks)]
+				}
+				cs := RTCase{Charset: "Shift_JIS", Name: "Shift_JIS", Text: string(rs)}
+				c.Note("kanji_mode_long_texts", fmt.Sprintf("len=%d", n), true, hx.HashS("kanjilong", cs.Text), func() any { return RTCase{Charset: "Shift_JIS", Name: "Shift_JIS", Text: string(rs[:20]) + fmt.Sprintf("...(%d characters)", n)} })
+				c.Enum("kanji_mode_long_texts", "roundtrip", cs, nil)
+			}
+			c.SetExhaustive("kanji_mode_long_texts", true)
+
 			// ... and every double-byte Shift_JIS character OUTSIDE those ranges (lead bytes 0xEB-0xFC:
 			// NEC / IBM extension rows), as all-double-byte text: Kanji mode cannot carry them, the
 			// writer has to fall back to byte mode with the Shift_JIS designator
